@@ -5,6 +5,8 @@ CONSTANTS
   MaxObj = 3
   Configs <- AllConfigs
   Lite = TRUE
+  Hold = FALSE
+  DrainAll = TRUE
   RejectChecksSlot = TRUE
 INVARIANTS EmitLeaf
 CHECK_DEADLOCK FALSE
